@@ -11,4 +11,4 @@ def check(run, replay=None):
                 "every part and of the contract-level query vs schema_for!(declared type) computed in the same binary, names vs the "
                 "names the queries serialise under; non-trivial = distinct program / part")
     return msgprops.check(run, "C16", "Props/C16", THEOREMS, {"decode": False, "schemas": True}, replay,
-                          translated=("Props/C16T", ["c16_translated_response_schemas_calls"]))
+                          translated=("Props/C16T", ["c16_translated_response_schemas_calls", "c16_translated_contract_level_table_parts"]))
